@@ -7,6 +7,7 @@
 
 #include <pika/threading_base/thread_helpers.hpp>
 
+#include <pika/config/verif_hooks.hpp>
 #include <pika/assert.hpp>
 #include <pika/coroutines/thread_enums.hpp>
 #include <pika/modules/errors.hpp>
@@ -337,6 +338,7 @@ namespace pika::this_thread {
 #ifdef PIKA_HAVE_THREAD_BACKTRACE_ON_SUSPENSION
             threads::detail::reset_backtrace bt(id, ec);
 #endif
+            PIKA_VERIF_POINT(::pika::verif::yield_before_switch, get_thread_id_data(id), static_cast<std::uint64_t>(state));
             // We might need to dispatch 'nextid' to it's correct scheduler
             // only if our current scheduler is the same, we should yield the id
             if (nextid &&
@@ -410,6 +412,7 @@ namespace pika::this_thread {
                     execution::thread_priority::boost, true, ec);
             if (ec) return pika::threads::detail::thread_restart_state::unknown;
 
+            PIKA_VERIF_POINT(::pika::verif::yield_before_switch, get_thread_id_data(id), 0, 1);
             // We might need to dispatch 'nextid' to it's correct scheduler
             // only if our current scheduler is the same, we should yield the id
             if (nextid &&
